@@ -245,7 +245,15 @@ def worker(ctx, job):
                 json.dump([request(op, cache, side)], fh)
             actors.append(fsx.actor(sc["flavour"], str(i), pf))
         spec = {"roots": [cache], "actors": actors, "schedule": job["prefix"], "timeout_ms": 20000}
-    rep = fsx.run(spec, ctx.dir)
+    def _once():
+        fsutil.restore(cache, init_snap)
+        if init_snap is None:
+            fsutil.wipe(cache)
+        return fsx.run(spec, ctx.dir)
+
+    rep = fsx.confirmed(_once)   # a time-out is only a verdict if it reproduces on a fresh execution
+    if rep.get("retried_after_timeout"):
+        res["extra"]["timeouts_not_reproduced"] = res["extra"].get("timeouts_not_reproduced", 0) + (1 if rep["status"] == "ok" else 0)
     t1 = int(time.time() * 1000) + 2
     res["evals"] += 1
     replay = {"engine": "fsx", "mode": "sched", "scenario": sc, "schedule": [d["chosen"] for d in rep["decisions"]]}
